@@ -328,6 +328,26 @@ CLAIMED = {
             'symbolic part; floats as reals (outermost-sample round trip '
             'outside the claim)',
             TECH),
+    'C06': ('3/C06',
+            'For 6 concrete blended scenes (incl. label gaps with an '
+            'unrelated label just above nlabels, touching parents, nothing '
+            'to deblend), every completion order of the per-source tasks '
+            '(symbolic permutation chosen step by step by the solver inside '
+            'a stubbed as_completed; up to 24 orders), label subsets, '
+            'relabel, nlevels, contrast {0, 0.001, 0.3, 1}, modes and '
+            'connectivities: the nproc>1 reassembly is bit-identical to '
+            'nproc=1 (array, labels, deblend maps incl. key order) and the '
+            'refinement invariants hold (non-zero footprint unchanged, '
+            'children partition exactly one parent, each child >= npixels, '
+            'unselected/untouched segments keep pixels and - without '
+            'relabel - labels, relabel => 1..N, contrast=1 => unchanged, '
+            'maps match the pixels, input image and its caches unmodified).',
+            'scenes are concrete (watershed is compiled); the executor stub '
+            'runs tasks in-process; one real spawn run is a smoke test only',
+            'symbolic completion-order permutation (z3 all-SAT inside a '
+            'stubbed as_completed) driving the real result-reassembly code, '
+            'compared with the serial run and with set-theoretic '
+            'refinement invariants'),
 }
 
 NOT_YET = {}
